@@ -37,19 +37,25 @@ func (f *failing) Read(p []byte) (int, error) {
 	return k, nil
 }
 
-func verify(v10 bool, pk, pi, alpha []byte) (ok bool, beta []byte, pan bool, msg string) {
+// verify hands the library pk, pi and alpha as adjacent fields of one received frame (sub-slices with spare
+// capacity); memViolation is non-empty when the call changed any byte of that frame or of the memory after it.
+func verify(r *mon.Run, c Case, v10 bool, pk, pi, alpha []byte) (ok bool, beta []byte, pan bool, msg string) {
+	fr, frameCheck := mon.Frame(pk, pi, alpha)
 	pan, msg = mon.Try(func() {
 		if v10 {
-			ok, beta = ecvrf.Verify_v10(pk, pi, alpha)
+			ok, beta = ecvrf.Verify_v10(fr[0], fr[1], fr[2])
 		} else {
-			ok, beta = ecvrf.Verify(pk, pi, alpha)
+			ok, beta = ecvrf.Verify(fr[0], fr[1], fr[2])
 		}
 	})
+	if m := frameCheck(); m != "" {
+		r.Violate("ecvrf/Verify/writes-caller-memory", fmt.Sprintf("Verify(v10=%v) on pk||pi||alpha: %s", v10, m), c)
+	}
 	return
 }
 
 func expectVerify(r *mon.Run, c Case, what string, v10 bool, pk, pi, alpha []byte, want bool, wantBeta []byte) {
-	ok, beta, pan, msg := verify(v10, pk, pi, alpha)
+	ok, beta, pan, msg := verify(r, c, v10, pk, pi, alpha)
 	r.Eval(nil)
 	r.Hist(fmt.Sprintf("verify/%s/want=%v", what, want))
 	switch {
@@ -85,15 +91,20 @@ func honest(r *mon.Run, c Case) {
 	r.Journal("c15 honest %+v", c)
 	r.Eval([]byte(fmt.Sprintf("%s|%s|%v", c.Seed, c.Alpha, v10)))
 	var pi []byte
+	// the private key is one entry of a slab of keys, the message a field after it
+	slab, slabCheck := mon.Frame(sk, bytes.Repeat([]byte{0x5c}, 64), alpha)
 	if pan, msg := mon.Try(func() {
 		if v10 {
-			pi = ecvrf.Prove_v10(sk, alpha)
+			pi = ecvrf.Prove_v10(ed25519.PrivateKey(slab[0]), slab[2])
 		} else {
-			pi = ecvrf.Prove(sk, alpha)
+			pi = ecvrf.Prove(ed25519.PrivateKey(slab[0]), slab[2])
 		}
 	}); pan {
 		r.Violate("ecvrf/Prove/panic", msg, c)
 		return
+	}
+	if m := slabCheck(); m != "" {
+		r.Violate("ecvrf/Prove/writes-caller-memory", fmt.Sprintf("Prove(v10=%v) on sk||next key||alpha: %s", v10, m), c)
 	}
 	want, _ := ref.VRFProve(seed, alpha, v10, nil, nil)
 	if !bytes.Equal(pi, want) {
